@@ -156,3 +156,20 @@ class vmath:
         return x.__floor__() if isinstance(x, VNum) else vmath._m.floor(x)
     def __getattr__(self, n):
         return getattr(vmath._m, n)
+
+
+def _vnum_extra():
+    def __rtruediv__(self, o): return VNum.of(o).__truediv__(self)
+    def __abs__(self): return self if self >= 0 else -self
+    def __pos__(self): return self
+    def __bool__(self): return self.n != 0
+    def __int__(self): return int(self.n // self.d) if self.n >= 0 else -int((-self.n) // self.d)
+    def __round__(self, nd=None):
+        if nd is None:
+            return VNum(self.n * 10**6, self.d).to_us() // 10**6 if False else _rint(float(self))
+        return float(round(float(self), nd))
+    for k, v in list(locals().items()):
+        setattr(VNum, k, v)
+
+
+_vnum_extra()
